@@ -10,7 +10,10 @@ of the first ':', len = length, `if (COND) compile else cache keyed on str`) and
     Generated/C17_PatternCache.lean :  def bypassesCache (index len next : Nat) : Bool     -- next = str[index + 1]
 
 with C++ unsigned (size_type, 64 bit) arithmetic.  `Props/C17.lean` proves from it that every string with a ':' that is
-followed by a character other than ':' bypasses the cache (`pattern_cache_never_serves_prefixed`).  A construct outside the
+followed by a character other than ':' bypasses the cache (`pattern_cache_never_serves_prefixed`).  It also reads
+`addToXPathCache`: the capacity `eXPathCacheMax` and the shape of the eviction (least-recently-used entry erased and the
+new pattern inserted under its own key, or any other recognised shape) -> `patternCacheCapacity`, `evictionAction`;
+`pattern_cache_transparent` is proved over them.  A construct outside the
 small expression grammar, a cache key that is not `str`, or a changed skeleton = exit 1 (obligation broken)."""
 import os
 import re
@@ -151,6 +154,43 @@ def main():
         die("the cached branch is not keyed on `str` (find(str) / addToXPathCache(str, …)) — re-model the key")
     if "resolver" in cached.replace("m_xsltProcessor->createMatchPattern(str, resolver)", ""):
         die("the cached branch uses the resolver in a way that is not modelled")
+    # --- the fill / eviction side: addToXPathCache
+    hpp = open(os.path.join(REPO, "src/xalanc/XSLT/StylesheetExecutionContextDefault.hpp"), encoding="utf-8", errors="replace").read()
+    mcap = re.search(r"\beXPathCacheMax\s*=\s*(\d+)", hpp)
+    if not mcap:
+        die("eXPathCacheMax not found in StylesheetExecutionContextDefault.hpp")
+    capacity = int(mcap.group(1))
+    if capacity < 1:
+        die("eXPathCacheMax < 1")
+    ma = re.search(r"\nStylesheetExecutionContextDefault::addToXPathCache\s*\(\s*const XalanDOMString&\s*pattern,\s*const XPath\*\s*theXPath\)\s*\{", txt)
+    if not ma:
+        die("addToXPathCache(const XalanDOMString& pattern, const XPath* theXPath) not found")
+    depth, i2 = 0, ma.end() - 1
+    for j2 in range(i2, len(txt)):
+        if txt[j2] == "{":
+            depth += 1
+        elif txt[j2] == "}":
+            depth -= 1
+            if depth == 0:
+                break
+    ab = re.sub(r"\s+", " ", txt[i2:j2 + 1])
+    me = re.search(r"if \(m_matchPatternCache\.size\(\) == eXPathCacheMax\) \{(.*)\} (.*) \}$", ab)
+    if not me:
+        die("addToXPathCache: skeleton `if (size() == eXPathCacheMax) { evict } insert` not found")
+    evict, tail = me.group(1), me.group(2)
+    # the victim is the entry with the lowest clock
+    if not re.search(r"const ClockType current = \(\*i\)\.second\.second; if \(current < lowest\) \{ lowest = current; earliest = i; \} else \{ \+\+i; \}", evict):
+        die("addToXPathCache: the search for the entry with the lowest clock was not recognised")
+    after = evict[evict.index("++i; } }") + len("++i; } }"):].strip()
+    after = re.sub(r"^assert\([^;]*\); ", "", after)
+    insert_new = "m_matchPatternCache.insert(pattern, XPathCacheEntry(theXPath, addClock));"
+    if after == "m_xsltProcessor->returnXPath((*earliest).second.first); m_matchPatternCache.erase(earliest);" and tail.strip() == insert_new:
+        action = "eraseVictimInsertNewKey"
+    elif re.fullmatch(r"m_xsltProcessor->returnXPath\(\(\*earliest\)\.second\.first\); \(\*earliest\)\.second = XPathCacheEntry\(theXPath, addClock\); return;", after) \
+            and tail.strip() == insert_new:
+        action = "overwriteVictimValueInPlace"
+    else:
+        die("addToXPathCache: eviction shape not recognised (after the search: `%s`; then: `%s`) — re-model it" % (after, tail.strip()))
     parser = P(tokenize(cond))
     lean = parser.por()
     if parser.peek() is not None:
@@ -163,13 +203,21 @@ def main():
         "`len` = length of `str`, `next` = `str[index + 1]`; `size_type` arithmetic is modulo 2^64.  Source text of the condition:",
         "`%s` -/" % cond.replace("-/", "- /"),
         "def bypassesCache (index len next : Nat) : Bool :=", "  " + lean, "",
+        "/-- `eXPathCacheMax`: the number of entries of the run-time match-pattern cache -/",
+        "def patternCacheCapacity : Nat := %d" % capacity, "",
+        "/-- what `addToXPathCache` does when the cache is full, after it has found the entry with the lowest clock (the victim) -/",
+        "inductive EvictionAction",
+        "  | eraseVictimInsertNewKey        -- `erase(earliest)`, then `insert(pattern, …)`: the new pattern is stored under its own key",
+        "  | overwriteVictimValueInPlace    -- `(*earliest).second = …`: the victim's *key* now maps to the new pattern",
+        "deriving Repr, DecidableEq", "",
+        "def evictionAction : EvictionAction := .%s" % action, "",
         "end XalanModel.Generated.C17", ""])
     os.makedirs(os.path.dirname(OUT), exist_ok=True)
     old = open(OUT, encoding="utf-8").read() if os.path.exists(OUT) else None
     if old != out:
         with open(OUT, "w", encoding="utf-8") as f:
             f.write(out)
-    print("c17_patterncache: condition `%s` -> %s" % (cond, os.path.relpath(OUT, ROOT)))
+    print("c17_patterncache: condition `%s`, capacity %d, eviction %s -> %s" % (cond, capacity, action, os.path.relpath(OUT, ROOT)))
 
 
 if __name__ == "__main__":
